@@ -538,6 +538,8 @@ pub enum TraceEv {
     HwWrite(u16),
     HwRead(u16),
     Enter(usize),
+    /// load(X) / load(Y) / store(X) / store(Y): a register transfer, by opcode
+    Xfer(u8),
 }
 
 #[derive(Clone, Debug, PartialEq, Eq)]
@@ -574,6 +576,9 @@ pub struct Interp<'a> {
     pub trace: Vec<TraceEv>,
     pub depth: u32,
     pub entries: Vec<u64>,
+    /// value the accumulator holds after a load() statement, until the next statement that is
+    /// not a store()
+    pub acc: Option<i64>,
 }
 
 fn wrap16(v: i64, unsigned: bool) -> i64 {
@@ -595,7 +600,7 @@ fn wrap8(v: i64, signed: bool) -> i64 {
 impl<'a> Interp<'a> {
     pub fn new(p: &'a Program, mode: EvalMode, st: State, max_steps: u64) -> Interp<'a> {
         let n = p.funcs.len();
-        Interp { p, mode, st, steps: 0, max_steps, trace: vec![], depth: 0, entries: vec![0; n] }
+        Interp { p, mode, st, steps: 0, max_steps, trace: vec![], depth: 0, entries: vec![0; n], acc: None }
     }
 
     fn tick(&mut self) -> Result<(), Abort> {
@@ -1045,6 +1050,9 @@ impl<'a> Interp<'a> {
 
     fn exec(&mut self, s: &Stmt) -> Result<Flow, Abort> {
         self.tick()?;
+        if !matches!(s, Stmt::Load(_) | Stmt::Store(_)) {
+            self.acc = None;
+        }
         match s {
             Stmt::Expr(e) => {
                 self.eval(e)?;
@@ -1173,10 +1181,17 @@ impl<'a> Interp<'a> {
                 if let Expr::Lv(LV::Deref(v)) = e {
                     if let VarKind::HwReg(a) = self.p.vars[*v].kind {
                         self.trace.push(TraceEv::Load(a));
+                        self.acc = None;
                         return Ok(Flow::Next);
                     }
                 }
-                self.eval(e)?;
+                match e {
+                    Expr::Lv(LV::X) => self.trace.push(TraceEv::Xfer(0x8a)), // TXA
+                    Expr::Lv(LV::Y) => self.trace.push(TraceEv::Xfer(0x98)), // TYA
+                    _ => {}
+                }
+                let v = self.eval(e)?;
+                self.acc = Some(v.v & 0xff);
                 Ok(Flow::Next)
             }
             Stmt::Store(l) => {
@@ -1186,7 +1201,20 @@ impl<'a> Interp<'a> {
                         return Ok(Flow::Next);
                     }
                 }
-                Err(Abort::Undefined("store() of A into a variable: value not modelled".into()))
+                // store(X) / store(Y) right after a load(): a register transfer of a known value
+                match (l, self.acc) {
+                    (LV::X, Some(a)) => {
+                        self.trace.push(TraceEv::Xfer(0xaa)); // TAX
+                        self.st.x = a;
+                        Ok(Flow::Next)
+                    }
+                    (LV::Y, Some(a)) => {
+                        self.trace.push(TraceEv::Xfer(0xa8)); // TAY
+                        self.st.y = a;
+                        Ok(Flow::Next)
+                    }
+                    _ => Err(Abort::Undefined("store() of A into a variable: value not modelled".into())),
+                }
             }
             Stmt::Strobe(v) => {
                 if let VarKind::HwReg(a) = self.p.vars[*v].kind {
